@@ -1,1 +1,3 @@
-//! Independent f64 reference model (filled per property).
+//! Independent f64 reference model. Written from the published definitions; shares no code
+//! and no constants with palette.
+pub mod transfer;
